@@ -450,7 +450,8 @@ def compute_form_action(form, coefficient):
     fs = u.ufl_function_space()
     if coefficient is None:
         coefficient = Coefficient(fs)
-    elif coefficient.ufl_function_space() != fs:
+    elif hasattr(coefficient, "ufl_function_space") and coefficient.ufl_function_space() != fs:
+        # (a general expression has no function space to compare with)
         logger.debug("Computing action of form on a coefficient in a different function space.")
     return replace(form, {u: coefficient})
 
@@ -484,7 +485,7 @@ def compute_energy_norm(form, coefficient):
     if coefficient is None:
         coefficient = Coefficient(V)
     else:
-        if coefficient.ufl_function_space() != U:
+        if hasattr(coefficient, "ufl_function_space") and coefficient.ufl_function_space() != U:
             raise ValueError(
                 "Trying to compute action of form on a "
                 "coefficient in an incompatible element space."
